@@ -1,5 +1,5 @@
 (* C01/Extract.v — extraction of the TCP send path model (ExtrOcamlBasic only) *)
-From IoraVerif Require Import C01.Model.
+From IoraVerif Require Import C01.Model C01.Interest.
 Require Import ExtrOcamlBasic.
 Extraction Language OCaml.
-Extraction "../build/ocaml/c01_model.ml" tstep tinit.
+Extraction "../build/ocaml/c01_model.ml" tstep tinit istep iinit.
